@@ -55,6 +55,17 @@ func applyBuilder(r0 *core.Rng, idx int, c *message.IKEPayloadContainer) builder
 	switch which {
 	case 0:
 		proto, typ, spi, data := r.Byte(), r.U16(), r.Bytes(r.Pick(0, 4, 8, 255, 256, 300)), d()
+		if (idx/24)%2 == 1 {
+			// the notify types the protocols define (error types 1..44, status types 16384.., 3GPP), with and without
+			// SPI, with and without data
+			typ = uint16(r0.Pick(1, 4, 5, 7, 9, 11, 11, 14, 17, 24, 34, 35, 36, 37, 38, 39, 40, 41, 43, 44, 16384, 16388, 16389, 16390, 16393, 16394, 16404, 55501, 55502, 55504, 55506))
+			if r0.Bool() {
+				data = arg(nil)
+			}
+			if r0.Bool() {
+				spi = arg(r0.Bytes(r0.Pick(4, 8)))
+			}
+		}
 		c.BuildNotification(proto, typ, spi, data)
 		return builderCase{name: "BuildNotification", expect: abs.Payload{Kind: abs.PNotify, Notify: &abs.Notify{Proto: proto, Type: typ, SPI: spi, Data: data}}}
 	case 1:
